@@ -218,6 +218,11 @@ func (p *clPeer) build(r *lib.Rng, kind string, k int, ntpreq *ntp.Packet, ntsre
 	case "D":
 		b, cs := seal(c2s, uid, true)
 		return dgram{b: b, h: honestOf(b, c2s, 0, uid), cookies: cs}
+	case "N": // the genuine response with 4-16 octets inserted behind its nonce (Nonce Length adjusted)
+		g, cs := seal(s2c, uid, false)
+		h := honestOf(g, s2c, 1, uid)
+		k := 4 * (1 + r.Intn(4))
+		return dgram{b: extendNonce(g, h.pos, k, r.Bytes(k)), h: h, cookies: cs}
 	case "B": // the bare 48-byte NTP response: no extension fields at all
 		return dgram{b: clone(hdr)}
 	case "J": // ... followed by 1-3 bytes of junk
@@ -454,7 +459,7 @@ func newSCIONClient(p *clPeer) *clientUT {
 		store: func() [][]byte { return c.Auth.NTSKEFetcher.VerifData().Cookie }}
 }
 
-var forgedKinds = []string{"T", "H", "K", "D", "U", "R", "P", "B", "J", "I", "A"}
+var forgedKinds = []string{"T", "H", "K", "D", "U", "R", "P", "B", "J", "I", "A", "N"}
 
 func clientCases(r *lib.Rng, thorough bool) {
 	p := getPeer(r.U64())
